@@ -321,3 +321,5 @@ def run(ctx, rep, tier):
     _run_q01(ctx, rep, tier)
     from .shared import delegate
     delegate(ctx, rep, tier, "C01", ("C01.q",), "C02.i", "no state is left without a transition for some byte by loop conversion (such a byte makes feed() return OK mid-chunk: the outcome then depends on chunking)")
+    delegate(ctx, rep, tier, "C05", ("C05.l",), "C02.k", "the optimiser never puts a yield on a transition with an action that may leave without consuming: the early advance for the yield "
+             "would let an overflowing append hand the NEXT byte to its handler - or read past the chunk when the cut falls right behind the overflowing byte")
